@@ -4,7 +4,8 @@ package c20
 //
 // Explicit-state model checking of the REAL git-lfs binary: multi-source BFS over operation sequences
 // (install / update / uninstall with their flags, plus commands that install hooks implicitly) starting from an
-// enumerated set of pre-existing hook files x filter.lfs.* values x scopes x core.hooksPath; states are real
+// enumerated set of pre-existing hook files (content classes; file types and link states; permission states) x
+// hooks-directory types x filter.lfs.* values x scopes x core.hooksPath; states are real
 // directory trees, deduplicated by a canonical key (hook bytes+modes, config values per scope); the ownership
 // oracle is evaluated on every transition, and on every install transition two composite probes are run
 // (install;install and install;install;uninstall).
@@ -15,16 +16,19 @@ package c20
 
 import (
 	"bytes"
+	"context"
 	"crypto/sha256"
 	"encoding/hex"
 	"fmt"
 	"io/fs"
 	"os"
+	"os/exec"
 	"path/filepath"
 	"runtime"
 	"sort"
 	"strings"
 	"sync"
+	"syscall"
 	"testing"
 	"time"
 
@@ -188,6 +192,16 @@ func restore(s snap, root string) {
 		keys = append(keys, k)
 	}
 	sort.Strings(keys)
+	defer func() {
+		// directory modes last, children before parents (a directory may be read-only or unsearchable)
+		for i := len(keys) - 1; i >= 0; i-- {
+			if e := s[keys[i]]; e.Kind == 'd' && e.Mode != 0755 {
+				if err := os.Chmod(filepath.Join(root, keys[i]), os.FileMode(e.Mode)); err != nil {
+					panic(vx.ToolError{Msg: "restore: " + err.Error()})
+				}
+			}
+		}
+	}()
 	for _, k := range keys {
 		e := s[k]
 		p := filepath.Join(root, k)
@@ -195,9 +209,6 @@ func restore(s snap, root string) {
 		switch e.Kind {
 		case 'd':
 			err = os.MkdirAll(p, 0755)
-			if err == nil {
-				err = os.Chmod(p, os.FileMode(e.Mode))
-			}
 		case 'l':
 			os.MkdirAll(filepath.Dir(p), 0755)
 			err = os.Symlink(strings.ReplaceAll(e.Link, rootPH, root), p)
@@ -221,7 +232,10 @@ func restore(s snap, root string) {
 // ---------------------------------------------------------------------------------------------------------
 // Canonical state
 
-var hookDirs = []string{"repo/.git/hooks", "repo/relhooks", "wt2/relhooks", "abshooks"}
+var hookDirs = []string{"repo/.git/hooks", "repo/relhooks", "wt2/relhooks", "abshooks", realHooksDir}
+
+// realHooksDir: where the hook entries live when the hooks directory itself is a symbolic link (scenario hooktypes)
+const realHooksDir = "realhooks"
 
 const scriptsDir = "userscripts"
 
@@ -244,6 +258,7 @@ type hookEnt struct {
 	Class     string
 	Beyond    bool
 	Protected bool
+	Target    string // symlinks: root-relative path the link chain ends at ("" when it leaves the world or loops)
 }
 
 func (a hookEnt) same(b hookEnt) bool {
@@ -261,9 +276,10 @@ func (h hookEnt) String() string {
 }
 
 type state struct {
-	Hooks map[string]hookEnt
-	Cfg   map[string]map[string][]string // scope -> key -> values in file order
-	Key   uint64
+	Hooks   map[string]hookEnt
+	DirLink map[string]string              // hooks directory that is a symlink -> root-relative directory it resolves to
+	Cfg     map[string]map[string][]string // scope -> key -> values in file order
+	Key     uint64
 }
 
 func sha(s string) string {
@@ -292,11 +308,35 @@ func isHookName(n string) bool {
 	return false
 }
 
-func linkTargetRel(link string) string {
-	if strings.HasPrefix(link, rootPH+"/") {
-		return link[len(rootPH)+1:]
+// resolveLink follows the symlink chain that starts at rel inside the snapshot (model of the kernel's path
+// resolution for the link shapes the harness creates: absolute targets inside the world, relative targets).
+// status: file | dir | missing | outside | loop; final = root-relative path the chain ends at.
+func resolveLink(s snap, rel string) (final string, e ent, status string) {
+	cur := rel
+	for hops := 0; hops < 10; hops++ {
+		en, ok := s[cur]
+		if !ok {
+			return cur, ent{}, "missing"
+		}
+		switch en.Kind {
+		case 'f':
+			return cur, en, "file"
+		case 'd':
+			return cur, en, "dir"
+		}
+		switch {
+		case strings.HasPrefix(en.Link, rootPH+"/"):
+			cur = filepath.Clean(en.Link[len(rootPH)+1:])
+		case strings.HasPrefix(en.Link, "/"):
+			return "", ent{}, "outside"
+		default:
+			cur = filepath.Clean(filepath.Join(filepath.Dir(cur), en.Link))
+		}
+		if cur == ".." || strings.HasPrefix(cur, "../") {
+			return "", ent{}, "outside"
+		}
 	}
-	return ""
+	return "", ent{}, "loop"
 }
 
 type envT struct {
@@ -308,6 +348,63 @@ type envT struct {
 	cfgCache sync.Map
 	pool     chan *gitx.World
 	thorough bool
+	unpriv   bool   // the scenario being run executes git-lfs as unprivUID on worlds owned by unprivUID
+	dropOK   bool   // the harness runs as root and can drop privileges for a child process
+	dropWhy  string // why not
+}
+
+// unprivUID: uid/gid ("nobody") git-lfs runs as in scenario 'perms', where permission bits must bite
+const unprivUID = 65534
+
+// runAs is gitx.World.RunIn with the child's credentials set to unprivUID.
+func runAs(w *gitx.World, dir string, stdin []byte, name string, args ...string) gitx.Res {
+	ctx, cancel := context.WithTimeout(context.Background(), gitx.CmdTimeout)
+	defer cancel()
+	cmd := exec.CommandContext(ctx, name, args...)
+	cmd.Dir = dir
+	cmd.Env = w.Env()
+	var out, errb bytes.Buffer
+	cmd.Stdout, cmd.Stderr = &out, &errb
+	if stdin != nil {
+		cmd.Stdin = bytes.NewReader(stdin)
+	}
+	cmd.SysProcAttr = &syscall.SysProcAttr{Setpgid: true, Credential: &syscall.Credential{Uid: unprivUID, Gid: unprivUID}}
+	cmd.Cancel = func() error { return syscall.Kill(-cmd.Process.Pid, syscall.SIGKILL) }
+	cmd.WaitDelay = 2 * time.Second
+	err := cmd.Run()
+	r := gitx.Res{Out: out.String(), Err: errb.String()}
+	if ctx.Err() == context.DeadlineExceeded {
+		r.TimedOut = true
+		r.Code = -1
+		return r
+	}
+	if err != nil {
+		if ee, ok := err.(*exec.ExitError); ok {
+			r.Code = ee.ExitCode()
+		} else {
+			r.Code = -2
+			r.Err += "\n[exec error] " + err.Error()
+		}
+	}
+	return r
+}
+
+func chownTree(root string) {
+	filepath.WalkDir(root, func(p string, d fs.DirEntry, err error) error {
+		if err == nil {
+			if e := os.Lchown(p, unprivUID, unprivUID); e != nil {
+				panic(vx.ToolError{Msg: "chown: " + e.Error()})
+			}
+		}
+		return nil
+	})
+}
+
+func (e *envT) restoreWorld(s snap, root string) {
+	restore(s, root)
+	if e.unpriv {
+		chownTree(root)
+	}
 }
 
 func (e *envT) parseCfg(data string) map[string][]string {
@@ -344,7 +441,20 @@ func (e *envT) parseCfg(data string) map[string][]string {
 }
 
 func (e *envT) digest(s snap) *state {
-	st := &state{Hooks: map[string]hookEnt{}, Cfg: map[string]map[string][]string{}}
+	st := &state{Hooks: map[string]hookEnt{}, Cfg: map[string]map[string][]string{}, DirLink: map[string]string{}}
+	for _, d := range hookDirs {
+		// a hooks directory that is itself a symbolic link: the link is the user's, never to be replaced
+		if en, ok := s[d]; ok && en.Kind == 'l' {
+			he := hookEnt{Kind: 'l', Mode: en.Mode, Link: en.Link, Class: "hooksdir-symlink", Protected: true}
+			if fin, _, status := resolveLink(s, d); status == "dir" {
+				st.DirLink[d] = fin
+				he.Target = fin
+			}
+			st.Hooks[d] = he
+		} else if ok && en.Kind == 'd' && en.Mode != 0755 {
+			st.Hooks[d] = hookEnt{Kind: 'd', Mode: en.Mode, Class: "hooksdir"} // part of the state; no demand attached
+		}
+	}
 	for rel, en := range s {
 		dir, rest := splitHookPath(rel)
 		if dir == "" {
@@ -361,12 +471,17 @@ func (e *envT) digest(s snap) *state {
 		}
 		switch {
 		case dir == scriptsDir:
-			hook := strings.TrimSuffix(rest, ".sh")
-			he.Class = "script"
-			if en.Kind == 'f' {
+			hook := strings.TrimSuffix(filepath.Base(rest), ".sh")
+			switch en.Kind {
+			case 'f':
 				c, _ := classifyContent(hook, en.Data)
 				he.Class = "script-" + c
 				he.Protected = c == "user"
+			case 'l':
+				// an intermediate link of a chain: user-made, git-lfs has no business replacing it
+				he.Class, he.Protected = "script-link", true
+			default:
+				he.Class, he.Protected = "script-dir", true
 			}
 		case strings.Contains(rest, "/") || !isHookName(rest):
 			he.Class = "other"
@@ -375,13 +490,22 @@ func (e *envT) digest(s snap) *state {
 			he.Class = "directory"
 			he.Protected = true
 		case en.Kind == 'l':
-			he.Class = "symlink-dangling"
-			if t := linkTargetRel(en.Link); t != "" {
-				if te, ok := s[t]; ok && te.Kind == 'f' {
-					c, _ := classifyContent(rest, te.Data)
-					he.Class = "symlink-" + c
-					he.Protected = c == "user"
-				}
+			// The hook's content is what reading the hook path yields.  A link that yields LFS-generated (or blank)
+			// content is treated like such a file; a link to a user script, to a directory, a dangling link and a
+			// link loop yield no LFS-generated content: the link itself (its target string) is the user's.
+			fin, te, status := resolveLink(s, rel)
+			he.Target = fin
+			switch status {
+			case "file":
+				c, _ := classifyContent(rest, te.Data)
+				he.Class = "symlink-" + c
+				he.Protected = c == "user"
+			case "dir":
+				he.Class, he.Protected = "symlink-to-directory", true
+			case "loop":
+				he.Class, he.Protected = "symlink-loop", true
+			default:
+				he.Class, he.Protected = "symlink-dangling", true
 			}
 		default:
 			he.Class, he.Beyond = classifyContent(rest, en.Data)
@@ -571,15 +695,19 @@ func activeDir(pre *state, o opDef) string {
 	if v := pre.Cfg[wts]["core.hookspath"]; len(v) > 0 {
 		hp = v[len(v)-1]
 	}
+	dir := o.Cwd + "/" + hp
 	switch {
 	case hp == "":
-		return "repo/.git/hooks"
+		dir = "repo/.git/hooks"
 	case strings.HasPrefix(hp, rootPH+"/"):
-		return hp[len(rootPH)+1:]
+		dir = hp[len(rootPH)+1:]
 	case strings.HasPrefix(hp, "/"):
 		return "<outside>"
 	}
-	return o.Cwd + "/" + hp
+	if t, ok := pre.DirLink[dir]; ok {
+		return t // the hooks directory is a symlink: the entries live in the directory it points to
+	}
+	return dir
 }
 
 func (e *envT) runOp(w *gitx.World, o opDef) gitx.Res {
@@ -590,6 +718,9 @@ func (e *envT) runOp(w *gitx.World, o opDef) gitx.Res {
 	var stdin []byte
 	if o.Stdin != "" {
 		stdin = []byte(o.Stdin)
+	}
+	if e.unpriv {
+		return runAs(w, filepath.Join(w.Root, o.Cwd), stdin, filepath.Join(w.BinDir, "git-lfs"), args...)
 	}
 	return w.RunIn(filepath.Join(w.Root, o.Cwd), stdin, nil, filepath.Join(w.BinDir, "git-lfs"), args...)
 }
@@ -656,10 +787,8 @@ func evaluate(pre, post *state, o opDef, res gitx.Res, so *stepOut, where string
 		for _, n := range hookNames {
 			p := active + "/" + n
 			allowed[p] = true
-			if he, ok := pre.Hooks[p]; ok && he.Kind == 'l' {
-				if t := linkTargetRel(he.Link); t != "" {
-					allowed[t] = true
-				}
+			if he, ok := pre.Hooks[p]; ok && he.Kind == 'l' && he.Target != "" {
+				allowed[he.Target] = true // --force writes through the link (chain): the file it ends at
 			}
 		}
 	}
@@ -885,6 +1014,14 @@ func outcomeOf(pre, post *state, o opDef, res gitx.Res) (string, bool) {
 		msg = "left-config"
 	case strings.Contains(outp, "is a directory"):
 		msg = "isdir"
+	case strings.Contains(outp, "permission denied"):
+		msg = "eacces"
+	case strings.Contains(outp, "too many levels of symbolic links"):
+		msg = "eloop"
+	case strings.Contains(outp, "no such file or directory"):
+		msg = "enoent"
+	case strings.Contains(outp, "file exists"), strings.Contains(outp, "not a directory"):
+		msg = "notdir"
 	}
 	return fmt.Sprintf("%s exit=%d %s hooks[%s] cfg[%s]", o.Name, res.Code, msg, strings.Join(hs, ","), strings.Join(cl, ",")), len(hd)+len(cd) > 0
 }
@@ -892,7 +1029,7 @@ func outcomeOf(pre, post *state, o opDef, res gitx.Res) (string, bool) {
 // step: restore preSnap, run o, evaluate; for install operations also run the composite probes.
 func (e *envT) step(w *gitx.World, pre *state, preSnap snap, o opDef, where string) stepOut {
 	so := stepOut{counters: map[string]int64{}}
-	restore(preSnap, w.Root)
+	e.restoreWorld(preSnap, w.Root)
 	res := e.runOp(w, o)
 	so.exit = res.Code
 	if res.TimedOut {
@@ -980,6 +1117,11 @@ func (e *envT) step(w *gitx.World, pre *state, preSnap snap, o opDef, where stri
 			if he.Beyond {
 				fp = "C20:hook-beyond-1024-treated-as-lfs"
 			}
+			if mid, okm := post2.Hooks[p]; he.Class == "symlink-dangling" && okm && he.same(mid) && strings.HasPrefix(mid.Class, "symlink-lfs-") && !ok {
+				// install left the user's link alone but wrote its hook THROUGH it (creating the missing target);
+				// uninstall then judged the link by that content and removed it (finding-3.md)
+				fp = "C20:roundtrip-not-restored:dangling-symlink-written-through-then-removed"
+			}
 			so.viol(fp, fmt.Sprintf("%s: `git lfs %s` followed by `git lfs %s` did not restore user hook %s (%s)", where, o.Name, un.Name, p, he.String()),
 				map[string]interface{}{"before": pre.describe(), "after": post3.describe()})
 		}
@@ -1000,15 +1142,16 @@ func (e *envT) step(w *gitx.World, pre *state, preSnap snap, o opDef, where stri
 // Initial states
 
 type placed struct {
-	Rel string // "" the hook path itself, "/x" a child, "@script" userscripts/<hook>.sh
+	Rel string // "" the hook path itself, "/x" a child, "@script" userscripts/<hook>.sh, "@<path>" userscripts/<path>
 	E   ent
 }
 
 type hookClass struct {
-	Name  string
-	Tier  int // 0: quick+thorough, 1: thorough only
-	Short bool
-	Make  func(hook string) []placed
+	Name   string
+	Tier   int // 0: quick+thorough, 1: thorough only
+	Short  bool
+	Make   func(hook string) []placed
+	MakeIn func(hook, dir string) []placed // file-type classes: dir = root-relative directory the entry is created in
 }
 
 func fileAt(data string, mode uint32) []placed {
@@ -1026,92 +1169,92 @@ func otherHook(hook string) string {
 
 func hookClasses() []hookClass {
 	hc := []hookClass{
-		{"absent", 0, true, func(h string) []placed { return nil }},
-		{"empty", 0, false, func(h string) []placed { return fileAt("", 0755) }},
-		{"whitespace-only", 0, false, func(h string) []placed { return fileAt("\n \t\n\n", 0755) }},
-		{"current", 0, true, func(h string) []placed { return fileAt(curTemplate(h)+"\n", 0755) }},
-		{"old1", 0, true, func(h string) []placed { return fileAt(inst(tmplOld1, h)+"\n", 0755) }},
-		{"old2", 1, false, func(h string) []placed { return fileAt(inst(tmplOld2, h)+"\n", 0755) }},
-		{"old3", 1, false, func(h string) []placed { return fileAt(inst(tmplOld3, h)+"\n", 0755) }},
-		{"prepush-old-a", 0, false, func(h string) []placed { return fileAt(prePushOnlyOld[0]+"\n", 0755) }},
-		{"prepush-old-e", 1, false, func(h string) []placed { return fileAt(prePushOnlyOld[4]+"\n", 0755) }},
-		{"prepush-old-b", 1, false, func(h string) []placed { return fileAt(prePushOnlyOld[1]+"\n", 0755) }},
-		{"prepush-old-c", 1, false, func(h string) []placed { return fileAt(prePushOnlyOld[2]+"\n", 0755) }},
-		{"prepush-old-d", 1, false, func(h string) []placed { return fileAt(prePushOnlyOld[3]+"\n", 0755) }},
-		{"current-reindented", 0, false, func(h string) []placed {
+		{Name: "absent", Tier: 0, Short: true, Make: func(h string) []placed { return nil }},
+		{Name: "empty", Tier: 0, Short: false, Make: func(h string) []placed { return fileAt("", 0755) }},
+		{Name: "whitespace-only", Tier: 0, Short: false, Make: func(h string) []placed { return fileAt("\n \t\n\n", 0755) }},
+		{Name: "current", Tier: 0, Short: true, Make: func(h string) []placed { return fileAt(curTemplate(h)+"\n", 0755) }},
+		{Name: "old1", Tier: 0, Short: true, Make: func(h string) []placed { return fileAt(inst(tmplOld1, h)+"\n", 0755) }},
+		{Name: "old2", Tier: 1, Short: false, Make: func(h string) []placed { return fileAt(inst(tmplOld2, h)+"\n", 0755) }},
+		{Name: "old3", Tier: 1, Short: false, Make: func(h string) []placed { return fileAt(inst(tmplOld3, h)+"\n", 0755) }},
+		{Name: "prepush-old-a", Tier: 0, Short: false, Make: func(h string) []placed { return fileAt(prePushOnlyOld[0]+"\n", 0755) }},
+		{Name: "prepush-old-e", Tier: 1, Short: false, Make: func(h string) []placed { return fileAt(prePushOnlyOld[4]+"\n", 0755) }},
+		{Name: "prepush-old-b", Tier: 1, Short: false, Make: func(h string) []placed { return fileAt(prePushOnlyOld[1]+"\n", 0755) }},
+		{Name: "prepush-old-c", Tier: 1, Short: false, Make: func(h string) []placed { return fileAt(prePushOnlyOld[2]+"\n", 0755) }},
+		{Name: "prepush-old-d", Tier: 1, Short: false, Make: func(h string) []placed { return fileAt(prePushOnlyOld[3]+"\n", 0755) }},
+		{Name: "current-reindented", Tier: 0, Short: false, Make: func(h string) []placed {
 			return fileAt("\n\n\t  "+strings.ReplaceAll(curTemplate(h), "\n", "\n\t  ")+"\n\n\n", 0755)
 		}},
-		{"old1-reindented", 1, false, func(h string) []placed {
+		{Name: "old1-reindented", Tier: 1, Short: false, Make: func(h string) []placed {
 			return fileAt("  "+strings.ReplaceAll(inst(tmplOld1, h), "\n", "\n \t")+"\n", 0755)
 		}},
-		{"current-crlf", 0, false, func(h string) []placed {
+		{Name: "current-crlf", Tier: 0, Short: false, Make: func(h string) []placed {
 			return fileAt(strings.ReplaceAll(curTemplate(h)+"\n", "\n", "\r\n"), 0755)
 		}},
-		{"current-trailing-blank-lines", 1, false, func(h string) []placed { return fileAt(curTemplate(h)+strings.Repeat("\n", 50), 0755) }},
-		{"user-script", 0, true, func(h string) []placed { return fileAt("#!/bin/sh\n"+userLines(h), 0755) }},
-		{"user-script-with-lfs-line", 0, false, func(h string) []placed {
+		{Name: "current-trailing-blank-lines", Tier: 1, Short: false, Make: func(h string) []placed { return fileAt(curTemplate(h)+strings.Repeat("\n", 50), 0755) }},
+		{Name: "user-script", Tier: 0, Short: true, Make: func(h string) []placed { return fileAt("#!/bin/sh\n"+userLines(h), 0755) }},
+		{Name: "user-script-with-lfs-line", Tier: 0, Short: false, Make: func(h string) []placed {
 			return fileAt("#!/bin/sh\necho mine\ngit lfs "+h+" \"$@\"\n", 0755)
 		}},
-		{"current-then-user-lines", 0, true, func(h string) []placed { return fileAt(curTemplate(h)+"\n"+userLines(h), 0755) }},
-		{"current-then-comment-and-user-lines", 0, false, func(h string) []placed {
+		{Name: "current-then-user-lines", Tier: 0, Short: true, Make: func(h string) []placed { return fileAt(curTemplate(h)+"\n"+userLines(h), 0755) }},
+		{Name: "current-then-comment-and-user-lines", Tier: 0, Short: false, Make: func(h string) []placed {
 			return fileAt(curTemplate(h)+"\n\n# local additions\n"+userLines(h), 0755)
 		}},
-		{"current-missing-last-line", 0, false, func(h string) []placed {
+		{Name: "current-missing-last-line", Tier: 0, Short: false, Make: func(h string) []placed {
 			t := curTemplate(h)
 			return fileAt(t[:strings.LastIndex(t, "\n")+1], 0755)
 		}},
-		{"current-line-inserted", 0, false, func(h string) []placed {
+		{Name: "current-line-inserted", Tier: 0, Short: false, Make: func(h string) []placed {
 			return fileAt(strings.Replace(curTemplate(h), "\ngit lfs ", "\necho USER-LINE-before\ngit lfs ", 1)+"\n", 0755)
 		}},
-		{"current-edited-exit-0", 0, false, func(h string) []placed {
+		{Name: "current-edited-exit-0", Tier: 0, Short: false, Make: func(h string) []placed {
 			return fileAt(strings.Replace(curTemplate(h), "exit 2; }", "exit 0; }", 1)+"\n", 0755)
 		}},
-		{"current-missing-first-line", 1, false, func(h string) []placed {
+		{Name: "current-missing-first-line", Tier: 1, Short: false, Make: func(h string) []placed {
 			return fileAt(strings.TrimPrefix(curTemplate(h), "#!/bin/sh\n")+"\n", 0755)
 		}},
-		{"current-missing-middle-line", 1, false, func(h string) []placed {
+		{Name: "current-missing-middle-line", Tier: 1, Short: false, Make: func(h string) []placed {
 			t := strings.Split(curTemplate(h), "\n")
 			return fileAt(t[0]+"\n"+t[2]+"\n", 0755)
 		}},
-		{"current-last-line-duplicated", 1, false, func(h string) []placed {
+		{Name: "current-last-line-duplicated", Tier: 1, Short: false, Make: func(h string) []placed {
 			t := strings.Split(curTemplate(h), "\n")
 			return fileAt(curTemplate(h)+"\n"+t[2]+"\n", 0755)
 		}},
-		{"old2-then-user-lines", 1, false, func(h string) []placed { return fileAt(inst(tmplOld2, h)+"\n"+userLines(h), 0755) }},
-		{"user-lines-then-current", 1, false, func(h string) []placed {
+		{Name: "old2-then-user-lines", Tier: 1, Short: false, Make: func(h string) []placed { return fileAt(inst(tmplOld2, h)+"\n"+userLines(h), 0755) }},
+		{Name: "user-lines-then-current", Tier: 1, Short: false, Make: func(h string) []placed {
 			return fileAt("#!/bin/sh\necho first\n"+strings.TrimPrefix(curTemplate(h), "#!/bin/sh\n")+"\n", 0755)
 		}},
-		{"template-of-other-hook", 0, false, func(h string) []placed { return fileAt(curTemplate(otherHook(h))+"\n", 0755) }},
-		{"template-prefix-100", 0, false, func(h string) []placed { return fileAt(curTemplate(h)[:100]+"\n", 0755) }},
-		{"blank-200-then-user-lines", 0, false, func(h string) []placed {
+		{Name: "template-of-other-hook", Tier: 0, Short: false, Make: func(h string) []placed { return fileAt(curTemplate(otherHook(h))+"\n", 0755) }},
+		{Name: "template-prefix-100", Tier: 0, Short: false, Make: func(h string) []placed { return fileAt(curTemplate(h)[:100]+"\n", 0755) }},
+		{Name: "blank-200-then-user-lines", Tier: 0, Short: false, Make: func(h string) []placed {
 			return fileAt(strings.Repeat(" \n", 100)+userLines(h), 0755)
 		}},
-		{"current-700-blank-then-user-lines-beyond-1024", 0, true, func(h string) []placed {
+		{Name: "current-700-blank-then-user-lines-beyond-1024", Tier: 0, Short: true, Make: func(h string) []placed {
 			return fileAt(curTemplate(h)+strings.Repeat("\n", 800)+userLines(h), 0755)
 		}},
-		{"old1-blank-then-user-lines-beyond-1024", 0, false, func(h string) []placed {
+		{Name: "old1-blank-then-user-lines-beyond-1024", Tier: 0, Short: false, Make: func(h string) []placed {
 			return fileAt(inst(tmplOld1, h)+strings.Repeat("\n", 800)+userLines(h), 0755)
 		}},
-		{"blank-1100-then-user-lines", 0, false, func(h string) []placed {
+		{Name: "blank-1100-then-user-lines", Tier: 0, Short: false, Make: func(h string) []placed {
 			return fileAt(strings.Repeat(" \n", 550)+userLines(h), 0755)
 		}},
-		{"big-user-script", 0, false, func(h string) []placed {
+		{Name: "big-user-script", Tier: 0, Short: false, Make: func(h string) []placed {
 			return fileAt("#!/bin/sh\n"+strings.Repeat("# a comment line of a long user hook\n", 40)+userLines(h), 0755)
 		}},
-		{"user-script-nonexec", 0, false, func(h string) []placed { return fileAt("#!/bin/sh\n"+userLines(h), 0644) }},
-		{"current-nonexec", 1, false, func(h string) []placed { return fileAt(curTemplate(h)+"\n", 0644) }},
-		{"symlink-to-user-script", 0, true, func(h string) []placed {
+		{Name: "user-script-nonexec", Tier: 0, Short: false, Make: func(h string) []placed { return fileAt("#!/bin/sh\n"+userLines(h), 0644) }},
+		{Name: "current-nonexec", Tier: 1, Short: false, Make: func(h string) []placed { return fileAt(curTemplate(h)+"\n", 0644) }},
+		{Name: "symlink-to-user-script", Tier: 0, Short: true, Make: func(h string) []placed {
 			return []placed{{"", ent{Kind: 'l', Mode: 0777, Link: rootPH + "/" + scriptsDir + "/" + h + ".sh"}},
 				{"@script", ent{Kind: 'f', Mode: 0755, Data: "#!/bin/sh\n" + userLines(h)}}}
 		}},
-		{"symlink-to-lfs-content", 0, false, func(h string) []placed {
+		{Name: "symlink-to-lfs-content", Tier: 0, Short: false, Make: func(h string) []placed {
 			return []placed{{"", ent{Kind: 'l', Mode: 0777, Link: rootPH + "/" + scriptsDir + "/" + h + ".sh"}},
 				{"@script", ent{Kind: 'f', Mode: 0755, Data: curTemplate(h) + "\n"}}}
 		}},
-		{"symlink-dangling", 1, false, func(h string) []placed {
+		{Name: "symlink-dangling", Tier: 1, Short: false, Make: func(h string) []placed {
 			return []placed{{"", ent{Kind: 'l', Mode: 0777, Link: rootPH + "/" + scriptsDir + "/" + h + ".sh"}}}
 		}},
-		{"directory", 0, false, func(h string) []placed {
+		{Name: "directory", Tier: 0, Short: false, Make: func(h string) []placed {
 			return []placed{{"", ent{Kind: 'd', Mode: 0755}}, {"/keep.txt", ent{Kind: 'f', Mode: 0644, Data: "user data\n"}}}
 		}},
 	}
@@ -1169,24 +1312,70 @@ func hooksDirFor(hp string) (dir, value string) {
 }
 
 func (e *envT) mkInit(desc, hp string, hooks map[string]hookClass, cfg map[string]map[string][]string) initState {
+	return e.mkInitDV(desc, hp, "plain", hooks, cfg)
+}
+
+// hooks-directory variants (scenario hooktypes): plain | symlink-abs | symlink-rel (the hooks directory is a symbolic
+// link to <root>/realhooks) | missing (no hooks directory) | symlink-dangling (link to a directory that does not exist)
+var dirVariants = []string{"plain", "symlink-abs", "symlink-rel", "missing", "symlink-dangling"}
+
+func (e *envT) mkInitDV(desc, hp, dv string, hooks map[string]hookClass, cfg map[string]map[string][]string) initState {
 	s := e.base.clone()
 	dir, val := hooksDirFor(hp)
 	if val != "" {
 		appendFile(s, "repo/.git/config", "[core]\n\thooksPath = "+val+"\n")
 	}
-	s[dir] = ent{Kind: 'd', Mode: 0755}
-	s[dir+"/pre-commit"] = ent{Kind: 'f', Mode: 0755, Data: "#!/bin/sh\necho user pre-commit hook\n"}
+	for k := range s {
+		if k == dir || strings.HasPrefix(k, dir+"/") {
+			delete(s, k)
+		}
+	}
+	real := dir // where the entries are created
+	switch dv {
+	case "plain":
+		s[dir] = ent{Kind: 'd', Mode: 0755}
+	case "readonly":
+		s[dir] = ent{Kind: 'd', Mode: 0555}
+	case "symlink-abs", "symlink-dangling":
+		s[dir] = ent{Kind: 'l', Mode: 0777, Link: rootPH + "/" + realHooksDir}
+		real = realHooksDir
+	case "symlink-rel":
+		r, _ := filepath.Rel(filepath.Dir(dir), realHooksDir)
+		s[dir] = ent{Kind: 'l', Mode: 0777, Link: r}
+		real = realHooksDir
+	case "missing":
+		real = ""
+	default:
+		panic("dir variant " + dv)
+	}
+	if dv == "symlink-dangling" {
+		real = ""
+	}
+	if real != "" {
+		if dv != "readonly" {
+			s[real] = ent{Kind: 'd', Mode: 0755}
+		}
+		s[real+"/pre-commit"] = ent{Kind: 'f', Mode: 0755, Data: "#!/bin/sh\necho user pre-commit hook\n"}
+	}
 	for _, h := range hookNames {
 		c, ok := hooks[h]
-		if !ok {
+		if !ok || real == "" {
 			continue
 		}
-		for _, pl := range c.Make(h) {
+		var pls []placed
+		if c.MakeIn != nil {
+			pls = c.MakeIn(h, real)
+		} else {
+			pls = c.Make(h)
+		}
+		for _, pl := range pls {
 			switch {
 			case pl.Rel == "@script":
 				s[scriptsDir+"/"+h+".sh"] = pl.E
+			case strings.HasPrefix(pl.Rel, "@"):
+				s[scriptsDir+"/"+pl.Rel[1:]] = pl.E
 			default:
-				s[dir+"/"+h+pl.Rel] = pl.E
+				s[real+"/"+h+pl.Rel] = pl.E
 			}
 		}
 	}
@@ -1205,6 +1394,7 @@ func (e *envT) mkInit(desc, hp string, hooks map[string]hookClass, cfg map[strin
 // Parts (scenarios)
 
 type partDef struct {
+	Unpriv   bool // run git-lfs as unprivUID (scenario perms)
 	Name     string
 	Inits    []initState
 	Ops      []opDef
@@ -1256,6 +1446,272 @@ func (e *envT) hooksPart() partDef {
 		}
 	}
 	return p
+}
+
+// ---------------------------------------------------------------------------------------------------------
+// Scenario hooktypes: the pre-existing hook varied by FILE TYPE and LINK STATE, the hooks directory by its own type
+
+func scriptRel(h string) string { return scriptsDir + "/" + h + ".sh" }
+
+// linkStr: target string of a symlink created in dir that points at the root-relative path target
+func linkStr(dir, target string, relative bool) string {
+	if relative {
+		r, err := filepath.Rel(dir, target)
+		if err != nil {
+			panic(err)
+		}
+		return r
+	}
+	return rootPH + "/" + target
+}
+
+func typeClasses() []hookClass {
+	lnk := func(l string) ent { return ent{Kind: 'l', Mode: 0777, Link: l} }
+	file := func(data string, mode uint32) ent { return ent{Kind: 'f', Mode: mode, Data: data} }
+	user := func(h string) string { return "#!/bin/sh\n" + userLines(h) }
+	toScript := func(relative bool, content func(h string) string, mode uint32) func(h, dir string) []placed {
+		return func(h, dir string) []placed {
+			return []placed{{"", lnk(linkStr(dir, scriptRel(h), relative))}, {"@script", file(content(h), mode)}}
+		}
+	}
+	return []hookClass{
+		{Name: "symlink-rel-to-user-script", Short: true, MakeIn: toScript(true, user, 0755)},
+		{Name: "symlink-abs-dangling", Short: true, MakeIn: func(h, dir string) []placed {
+			return []placed{{"", lnk(linkStr(dir, scriptRel(h), false))}}
+		}},
+		{Name: "symlink-rel-dangling", Short: true, MakeIn: func(h, dir string) []placed {
+			return []placed{{"", lnk(linkStr(dir, scriptRel(h), true))}}
+		}},
+		{Name: "symlink-abs-dangling-parent-missing", MakeIn: func(h, dir string) []placed {
+			return []placed{{"", lnk(linkStr(dir, scriptsDir+"/gone/"+h+".sh", false))}}
+		}},
+		{Name: "symlink-rel-dangling-parent-missing", Short: true, MakeIn: func(h, dir string) []placed {
+			return []placed{{"", lnk(linkStr(dir, scriptsDir+"/gone/"+h+".sh", true))}}
+		}},
+		{Name: "symlink-rel-to-lfs-current", MakeIn: toScript(true, func(h string) string { return curTemplate(h) + "\n" }, 0755)},
+		{Name: "symlink-abs-to-lfs-old1", MakeIn: toScript(false, func(h string) string { return inst(tmplOld1, h) + "\n" }, 0755)},
+		{Name: "symlink-abs-to-empty-file", Tier: 1, MakeIn: toScript(false, func(h string) string { return "" }, 0755)},
+		{Name: "symlink-abs-to-directory", MakeIn: func(h, dir string) []placed {
+			return []placed{{"", lnk(linkStr(dir, scriptsDir+"/"+h+".d", false))}, {"@" + h + ".d", ent{Kind: 'd', Mode: 0755}},
+				{"@" + h + ".d/keep.txt", file("user data\n", 0644)}}
+		}},
+		{Name: "symlink-chain2-to-user-script", Short: true, MakeIn: func(h, dir string) []placed {
+			return []placed{{"", lnk(linkStr(dir, scriptsDir+"/"+h+".link", true))}, {"@" + h + ".link", lnk(h + ".sh")}, {"@script", file(user(h), 0755)}}
+		}},
+		{Name: "symlink-chain2-dangling", MakeIn: func(h, dir string) []placed {
+			return []placed{{"", lnk(linkStr(dir, scriptsDir+"/"+h+".link", false))}, {"@" + h + ".link", lnk(h + ".sh")}}
+		}},
+		{Name: "symlink-chain2-to-lfs-current", Tier: 1, MakeIn: func(h, dir string) []placed {
+			return []placed{{"", lnk(linkStr(dir, scriptsDir+"/"+h+".link", false))}, {"@" + h + ".link", lnk(rootPH + "/" + scriptRel(h))},
+				{"@script", file(curTemplate(h)+"\n", 0755)}}
+		}},
+		{Name: "symlink-self-loop", MakeIn: func(h, dir string) []placed { return []placed{{"", lnk(h)}} }},
+		{Name: "directory-empty", MakeIn: func(h, dir string) []placed { return []placed{{"", ent{Kind: 'd', Mode: 0755}}} }},
+		{Name: "user-script-mode-000", Tier: 1, MakeIn: func(h, dir string) []placed { return []placed{{"", file(user(h), 0)}} }},
+		{Name: "symlink-abs-to-user-script-nonexec", Tier: 1, MakeIn: toScript(false, user, 0644)},
+		{Name: "symlink-rel-to-lfs-old1", Tier: 1, MakeIn: toScript(true, func(h string) string { return inst(tmplOld1, h) + "\n" }, 0755)},
+		{Name: "symlink-rel-to-current-then-user-lines", Tier: 1, MakeIn: toScript(true, func(h string) string { return curTemplate(h) + "\n" + userLines(h) }, 0755)},
+	}
+}
+
+// hooktypesPart: every file-type / link-state class for the hook entry x which hook carries it x core.hooksPath
+// {unset, relative, absolute (outside the repository)}, and the hooks directory itself {plain, symlink (absolute /
+// relative target), missing, dangling symlink} x a set of entry classes, under the hooks alphabet, to closure.
+func (e *envT) hooktypesPart() partDef {
+	p := partDef{Name: "hooktypes", MaxDepth: -1}
+	p.Ops = []opDef{mkOp("install", "global", "repo", ""), mkOp("install", "global", "repo", "f"), opUpdate,
+		mkOp("uninstall", "global", "repo", ""), opTrack}
+	if e.thorough {
+		p.Ops = append(p.Ops, opUpdateForce)
+	}
+	seen := map[uint64]bool{}
+	add := func(is initState) {
+		if !seen[is.St.Key] {
+			seen[is.St.Key] = true
+			p.Inits = append(p.Inits, is)
+		}
+	}
+	base := map[string]hookClass{}
+	for _, c := range hookClasses() {
+		base[c.Name] = c
+	}
+	tcs := typeClasses()
+	place := func(hp, dv string, c hookClass, singles []string, othersCurrent bool) {
+		for _, h := range singles {
+			add(e.mkInitDV(fmt.Sprintf("hooksPath=%s hooksdir=%s %s=%s others absent", orDash(hp), dv, h, c.Name), hp, dv, map[string]hookClass{h: c}, nil))
+			if othersCurrent && (h == "pre-push" || h == "post-commit") {
+				m := map[string]hookClass{}
+				for _, o := range hookNames {
+					m[o] = base["current"]
+				}
+				m[h] = c
+				add(e.mkInitDV(fmt.Sprintf("hooksPath=%s hooksdir=%s %s=%s others current", orDash(hp), dv, h, c.Name), hp, dv, m, nil))
+			}
+		}
+		m := map[string]hookClass{}
+		for _, h := range hookNames {
+			m[h] = c
+		}
+		add(e.mkInitDV(fmt.Sprintf("hooksPath=%s hooksdir=%s all four hooks=%s", orDash(hp), dv, c.Name), hp, dv, m, nil))
+	}
+	// (a) entry classes in a plain hooks directory
+	for _, hp := range []string{"", "rel", "abs"} {
+		for _, c := range tcs {
+			if c.Tier > 0 && !e.thorough {
+				continue
+			}
+			if hp != "" && !e.thorough && !c.Short {
+				continue
+			}
+			singles := hookNames
+			if !e.thorough {
+				singles = []string{"pre-push", "post-commit"} // first slot, a later slot (the hooks are processed in order)
+				if hp != "" {
+					singles = []string{"pre-push"}
+				}
+			} else if hp != "" && !c.Short {
+				singles = []string{"pre-push"}
+			}
+			place(hp, "plain", c, singles, e.thorough && (hp == "" || c.Short))
+		}
+	}
+	// (b) the hooks directory itself varied, crossed with entry classes
+	dirClasses := []hookClass{base["absent"], base["current"], base["user-script"]}
+	for _, c := range tcs {
+		switch c.Name {
+		case "symlink-rel-dangling", "symlink-rel-to-user-script":
+			dirClasses = append(dirClasses, c)
+		case "symlink-abs-dangling", "symlink-chain2-to-user-script", "symlink-abs-to-lfs-old1":
+			if e.thorough {
+				dirClasses = append(dirClasses, c)
+			}
+		}
+	}
+	for _, hp := range []string{"", "rel", "abs"} {
+		if hp == "rel" && !e.thorough {
+			continue
+		}
+		for _, dv := range dirVariants {
+			switch dv {
+			case "plain":
+				continue
+			case "missing", "symlink-dangling":
+				add(e.mkInitDV(fmt.Sprintf("hooksPath=%s hooksdir=%s", orDash(hp), dv), hp, dv, nil, nil))
+				continue
+			case "symlink-rel":
+				if !e.thorough && hp != "" {
+					continue
+				}
+			}
+			for _, c := range dirClasses {
+				singles := []string{"pre-push"}
+				if e.thorough {
+					singles = []string{"pre-push", "post-merge"}
+				}
+				if c.Name == "absent" {
+					singles = nil
+				}
+				place(hp, dv, c, singles, false)
+			}
+		}
+	}
+	return p
+}
+
+// permsPart: states in which PERMISSION BITS decide what git-lfs can read or write: read-only hooks directory,
+// unreadable / read-only hook files, a symlink into an unsearchable directory.  git-lfs runs as uid 65534 on a world
+// owned by uid 65534 (the harness itself runs as root, for which permission bits are void).
+func (e *envT) permsPart() partDef {
+	p := partDef{Name: "perms", MaxDepth: -1, Unpriv: true}
+	p.Ops = []opDef{mkOp("install", "global", "repo", ""), mkOp("install", "global", "repo", "f"), opUpdate, opUpdateForce,
+		mkOp("uninstall", "global", "repo", ""), opTrack}
+	seen := map[uint64]bool{}
+	add := func(is initState) {
+		if !seen[is.St.Key] {
+			seen[is.St.Key] = true
+			p.Inits = append(p.Inits, is)
+		}
+	}
+	base := map[string]hookClass{}
+	for _, c := range hookClasses() {
+		base[c.Name] = c
+	}
+	for _, c := range typeClasses() {
+		base[c.Name] = c
+	}
+	file := func(data string, mode uint32) []placed { return []placed{{"", ent{Kind: 'f', Mode: mode, Data: data}}} }
+	user := func(h string) string { return "#!/bin/sh\n" + userLines(h) }
+	fileClasses := []hookClass{
+		base["user-script-mode-000"],
+		{Name: "user-script-mode-444", Make: func(h string) []placed { return file(user(h), 0444) }},
+		{Name: "user-script-mode-200-unreadable-writable", Make: func(h string) []placed { return file(user(h), 0200) }},
+		{Name: "old1-mode-444", Make: func(h string) []placed { return file(inst(tmplOld1, h)+"\n", 0444) }},
+		{Name: "old1-mode-000", Make: func(h string) []placed { return file(inst(tmplOld1, h)+"\n", 0) }},
+		{Name: "current-mode-444", Make: func(h string) []placed { return file(curTemplate(h)+"\n", 0444) }},
+		{Name: "current-mode-000", Make: func(h string) []placed { return file(curTemplate(h)+"\n", 0) }},
+		{Name: "symlink-to-unreadable-user-script", MakeIn: func(h, dir string) []placed {
+			return []placed{{"", ent{Kind: 'l', Mode: 0777, Link: linkStr(dir, scriptRel(h), true)}}, {"@script", ent{Kind: 'f', Mode: 0, Data: user(h)}}}
+		}},
+		{Name: "symlink-into-unsearchable-directory", MakeIn: func(h, dir string) []placed {
+			return []placed{{"", ent{Kind: 'l', Mode: 0777, Link: linkStr(dir, scriptsDir+"/locked/"+h+".sh", false)}},
+				{"@locked", ent{Kind: 'd', Mode: 0}}, {"@locked/" + h + ".sh", ent{Kind: 'f', Mode: 0755, Data: user(h)}}}
+		}},
+	}
+	roClasses := []hookClass{base["absent"], base["current"], base["old1"], base["user-script"], base["symlink-rel-dangling"], base["symlink-to-user-script"]}
+	hps := []string{""}
+	if e.thorough {
+		hps = []string{"", "abs"}
+	}
+	for _, hp := range hps {
+		for _, c := range fileClasses {
+			singles := []string{"pre-push"}
+			if e.thorough {
+				singles = []string{"pre-push", "post-commit"}
+			}
+			for _, h := range singles {
+				add(e.mkInitDV(fmt.Sprintf("hooksPath=%s hooksdir=plain %s=%s others absent", orDash(hp), h, c.Name), hp, "plain", map[string]hookClass{h: c}, nil))
+			}
+			m := map[string]hookClass{}
+			for _, h := range hookNames {
+				m[h] = c
+			}
+			add(e.mkInitDV(fmt.Sprintf("hooksPath=%s hooksdir=plain all four hooks=%s", orDash(hp), c.Name), hp, "plain", m, nil))
+		}
+		for _, c := range roClasses {
+			if c.Name != "absent" {
+				add(e.mkInitDV(fmt.Sprintf("hooksPath=%s hooksdir=readonly pre-push=%s others absent", orDash(hp), c.Name), hp, "readonly", map[string]hookClass{"pre-push": c}, nil))
+				if e.thorough {
+					add(e.mkInitDV(fmt.Sprintf("hooksPath=%s hooksdir=readonly post-merge=%s others absent", orDash(hp), c.Name), hp, "readonly", map[string]hookClass{"post-merge": c}, nil))
+				}
+			}
+			m := map[string]hookClass{}
+			for _, h := range hookNames {
+				m[h] = c
+			}
+			add(e.mkInitDV(fmt.Sprintf("hooksPath=%s hooksdir=readonly all four hooks=%s", orDash(hp), c.Name), hp, "readonly", m, nil))
+		}
+	}
+	return p
+}
+
+// probeDrop: can the harness run a child as unprivUID inside its scratch area?
+func (e *envT) probeDrop() {
+	if os.Geteuid() != 0 {
+		e.dropWhy = "the harness does not run as root (running the permission states natively is not implemented)"
+		return
+	}
+	world := <-e.pool
+	defer func() { e.pool <- world }()
+	e.unpriv = true
+	defer func() { e.unpriv = false }()
+	is := e.mkInit("probe", "", nil, nil)
+	e.restoreWorld(is.Snap, world.Root)
+	r := runAs(world, filepath.Join(world.Root, "repo"), nil, "/bin/sh", "-c", "id -u && : > probe.tmp && rm probe.tmp && git-lfs version >/dev/null && git rev-parse --git-dir")
+	if !r.OK() || !strings.HasPrefix(r.Out, fmt.Sprint(unprivUID)+"\n") {
+		e.dropWhy = "cannot run a child as uid " + fmt.Sprint(unprivUID) + " in the scratch area: " + clip(r.String(), 300)
+		return
+	}
+	e.dropOK = true
 }
 
 func orDash(s string) string {
@@ -1477,6 +1933,8 @@ type bfsInfo struct {
 
 func (e *envT) bfs(p *partDef, deadline time.Time) (*vx.Stats, bfsInfo) {
 	t0 := time.Now()
+	e.unpriv = p.Unpriv
+	defer func() { e.unpriv = false }()
 	st := vx.NewStats()
 	info := bfsInfo{Scenario: p.Name, Initial: len(p.Inits), Ops: len(p.Ops), MaxDepth: p.MaxDepth}
 	seen := map[uint64]bool{}
@@ -1609,6 +2067,7 @@ func (e *envT) bfs(p *partDef, deadline time.Time) (*vx.Stats, bfsInfo) {
 // replayRun re-executes exactly one case (initial state + operation sequence) statelessly.
 func (e *envT) replayRun(p *partDef) vx.RunFunc {
 	return func(x *vx.X) vx.Result {
+		e.unpriv = p.Unpriv
 		i := x.In(len(p.Inits))
 		world := <-e.pool
 		defer func() { e.pool <- world }()
@@ -1668,6 +2127,12 @@ func newEnv(c *vx.Check) *envT {
 		if err := os.MkdirAll(d, 0755); err != nil {
 			panic(vx.ToolError{Msg: err.Error()})
 		}
+	}
+	if os.Geteuid() == 0 {
+		// scenario perms runs git-lfs as an unprivileged user: it must be able to reach the worlds and to use TMPDIR
+		os.Chmod(scratch, 0711)
+		os.Chmod(e.scratch, 0711)
+		os.Chmod(e.tmp, 01777)
 	}
 	if err := os.Symlink(bin, filepath.Join(e.binDir, "git-lfs")); err != nil {
 		panic(vx.ToolError{Msg: err.Error()})
@@ -1759,6 +2224,9 @@ func TestVerifC20(t *testing.T) {
 	e := newEnv(c)
 	c.Assumptions = []string{
 		"Ownership model (independent of lfs/hook.go's matcher): a hook file is LFS-generated iff the WHOLE file, with leading blanks/tabs of each line removed and surrounding whitespace trimmed, equals the current or a historical template of that hook (templates copied from the 3.6.0 sources and cross-checked at start against what a fresh install writes). Everything else in a hooks directory (other content, other file names, symlinks to user scripts, directories) is user content.",
+		"Symbolic links: the content of a hook is what reading the hook path yields. A link (chain) that ends at a file with LFS-generated or blank content is treated like such a file (git-lfs may rewrite that file through the link; uninstall may remove the link). A link that ends at a user script, at a directory, at nothing (dangling - whether or not the missing target could be created) or in a loop yields no LFS-generated content: without --force the link itself (its target string), every intermediate link of the chain and whatever they point to must be unchanged; with --force the hook path and the file the chain ends at may change. A hooks directory that is itself a symbolic link must never be replaced (--force is documented to overwrite hooks, not the hooks directory). A file that git-lfs creates at the missing target of a dangling link lies outside the hooks directories and is not itself demanded to disappear; the link, however, is one of 'the previous hooks' that uninstall-after-install must restore (finding-3.md).",
+		"The conflict report (H2) is demanded where reading the hook path yields a user script (regular file, link or link chain); for directories, dangling links and loops only non-destruction is demanded (git-lfs reports an I/O error there or installs through the link).",
+		"Not enumerated: FIFOs / sockets / devices as hook paths (git-lfs open()s the hook path; a FIFO without writer blocks forever, which would only produce tool timeouts). Permission states are void for root: they are explored by running git-lfs as uid 65534 (scenario perms); when the harness cannot drop privileges the scenario is skipped and that is recorded in bounds.scenario_perms_skipped.",
 		"A hook file consisting only of whitespace carries no user content; git-lfs treats it as replaceable by design, and the check does not flag that. A template that only matches when CRs are ignored is 'ambiguous': either treatment is accepted.",
 		"filter.lfs.{clean,smudge,process,required} values ever written by git-lfs (current, --skip-smudge, historical forms) are LFS-generated; any other value is a user setting. uninstall's documented removal of the filter.lfs section of its TARGET scope is not flagged; scopes other than the target must not change at all (documented meaning of --local/--worktree/--system/--file).",
 		"'reports the conflict' = non-zero exit, or exit 0 with a message naming the hook conflict / the filter.lfs key. Demanded of install and update only (implicit hook installation by track etc. is only required not to overwrite).",
@@ -1786,7 +2254,14 @@ func TestVerifC20(t *testing.T) {
 		name string
 		mk   func() partDef
 	}
-	builders := []builder{{"hooks", e.hooksPart}}
+	builders := []builder{{"hooks", e.hooksPart}, {"hooktypes", e.hooktypesPart}}
+	e.probeDrop()
+	if e.dropOK {
+		builders = append(builders, builder{"perms", e.permsPart})
+		c.Bounds["scenario_perms_runs_git_lfs_as_uid"] = unprivUID
+	} else {
+		c.Bounds["scenario_perms_skipped"] = e.dropWhy
+	}
 	for _, sc := range []string{"global", "local", "wt2", "wtmain", "file", "system"} {
 		sc := sc
 		full := e.thorough || sc == "global"
@@ -1806,6 +2281,8 @@ func TestVerifC20(t *testing.T) {
 	c.Rule = "multi-source BFS with canonical-state dedup (key = type/mode/bytes of every entry of every hooks directory and of symlinked user scripts + all config values of the 6 scope files) over the real git-lfs binary. " +
 		"Scenario 'hooks': every pre-existing hook class (see bounds) for each hook alone and for all four together x core.hooksPath {unset, relative, absolute} under {install, install --force, update, uninstall, track (+ update --force in the thorough tier)}; " +
 		"scenarios 'cfg-<scope>' for the 6 scopes {global, --local, --worktree in main and in a linked worktree, --file, --system via GIT_CONFIG_SYSTEM}: combinations of filter.lfs.{clean,smudge,process}∈{unset,current,historical,custom} x required∈{unset,true,false} plus multi-valued keys under {install, install --force, install --skip-smudge, uninstall} (--skip-repo) to closure; " +
+		"scenario 'hooktypes': the pre-existing hook varied by FILE TYPE and LINK STATE (bounds: hooktypes_entry_classes - symlink with relative/absolute target to a user script, to current/historical LFS content, to an empty file, to a directory; dangling symlink with relative/absolute target whose directory exists or not; chain of two links ending at a user script / LFS content / nothing; self-loop; empty directory; mode 000) for the first and a later hook slot and for all four x core.hooksPath {unset, relative, absolute outside the repository}, and the hooks directory itself varied {symlink to another directory with absolute/relative target, missing, dangling symlink} x {no hooks, current, user script, dangling symlink, symlink to user script}, under the hooks alphabet, to closure; " +
+		"scenario 'perms' (only when the harness is root and can drop privileges): git-lfs runs as uid 65534 on worlds owned by uid 65534 with a read-only hooks directory, unreadable / read-only / write-only hook files (user and LFS content), a symlink to an unreadable script and a symlink into an unsearchable directory, to closure; " +
 		"scenario 'mixed': hooks x multi-scope configurations under the cross-scope alphabet. Every install transition additionally runs the probes install;install and install;install;uninstall. " +
 		"A case (state, operation) is non-trivial when the state holds at least one user-owned hook entry or custom filter value, or the operation changed the state; distinct = distinct (canonical state key, operation)."
 	c.Bounds["tier"] = c.Tier
@@ -1816,6 +2293,14 @@ func TestVerifC20(t *testing.T) {
 		}
 	}
 	c.Bounds["hook_classes"] = classNames
+	var typeNames []string
+	for _, hc := range typeClasses() {
+		if hc.Tier == 0 || e.thorough {
+			typeNames = append(typeNames, hc.Name)
+		}
+	}
+	c.Bounds["hooktypes_entry_classes"] = typeNames
+	c.Bounds["hooktypes_hooks_directory_variants"] = dirVariants
 	for _, p := range parts {
 		var ops []string
 		for _, o := range p.Ops {
